@@ -42,6 +42,7 @@ Extraction "model.ml"
   esop_not esop_from_lut esop_to_lut esop_display
   soes_zero soes_one soes_num_cubes soes_num_lits soes_is_zero soes_is_one soes_from_cubes soes_value soes_or
   soes_to_lut soes_display
+  spec_to_hex spec_to_bin spec_fmt bytes_eqb chk_from_hex
   (* mip programmes (C18) *)
   sop_program esop_program program_canon chk_sop_opt chk_sopes_opt chk_esop_opt sop_cost sopes_cost esop_cost
   sop_solution_ok sopes_solution_ok esop_solution_ok.
